@@ -361,6 +361,9 @@ def model_to_dict(model: Model, sort: bool = False) -> OrderedDict:
     obj["reactions"] = list(map(_reaction_to_dict, model.reactions))
     obj["genes"] = list(map(_gene_to_dict, model.genes))
     obj["id"] = model.id
+    # optional, "max" when absent (documents of maximization models are unchanged)
+    if model.objective_direction == "min":
+        obj["objective_direction"] = "min"
     _update_optional(
         model, obj, _OPTIONAL_MODEL_ATTRIBUTES, _ORDERED_OPTIONAL_MODEL_KEYS
     )
@@ -419,6 +422,8 @@ def model_from_dict(obj: Dict) -> Model:
         for rxn in objective_reactions
     }
     set_objective(model, coefficients)
+    if obj.get("objective_direction") in ("min", "max"):
+        model.objective_direction = obj["objective_direction"]
     for k, v in obj.items():
         if k in {"id", "name", "notes", "compartments", "annotation"}:
             setattr(model, k, v)
